@@ -19,7 +19,7 @@ Module ProdSim.
     r_ret : b2n (q_ret q) = aRd (ap s);
     r_s : b2n (q_s q) = b2n (seen_succ s) /\ b2n (seen_succ s) <= b2n (succ_closed s);
     r_e : b2n (q_e q) = b2n (seen_err s) /\ b2n (seen_err s) <= b2n (err_closed s);
-    r_sync : aI (ap s) <= b2n (sync_close c) /\ b2n (sync_close c) <= s0 (sp s) + aI (ap s);
+    r_sync : aI (ap s) <= b2n (sync_close c) /\ b2n (sync_close c) <= s0 (sp s) + aI (ap s) /\ aI (ap s) + s0 (sp s) <= 1;
     r_late : aLate (ap s) <= b2n (err_closed s)
   }.
 
@@ -43,16 +43,25 @@ Module ProdSim.
     | |- context [b2n (?a && ?b)] => destruct a eqn:?; destruct b eqn:?; cbn
     end.
 
+  (* projections of explicit records, without letting cbn fold the accessors back *)
+  Ltac proj_red :=
+    unfold inflight, sp, in_closed, ret_closed, err_closed, succ_closed, seen_err, seen_succ, sent, ap, dp, d_hold, shutting, rh, rh_buf, tp, tpq, tpq_closed, t_hold, pp, ppq, ppq_closed, p_hold, ppbuf, pp_ref, p_mark, bp, b_refs, b_in_closed, b_hold, b_buf, b_resp, b_after, br, br_set, out_closed, resp_closed, stop_closed;
+    cbn [sh apl dsp tpr prt brk brg old budget fuel panic x_inflight x_sp x_in_closed x_ret_closed x_err_closed x_succ_closed x_seen_err x_seen_succ x_sent x_ap x_dp x_d_hold x_shutting x_rh x_rh_buf x_tp x_tpq x_tpq_closed x_t_hold x_pp x_ppq x_ppq_closed x_p_hold x_ppbuf x_pp_ref x_p_mark x_bp x_b_refs x_b_in_closed x_b_hold x_b_buf x_b_resp x_b_after x_br x_br_set x_out_closed x_resp_closed x_stop_closed].
+
   Ltac finish_R I' :=
     first
       [ exfalso; lia
-      | constructor; [exact I' | ..]; red_goal; unfold ap, seen_err, seen_succ; cbn; rw_consts; cbn [aI aRd aLate aDn b2n]; try lia; bool_goal1; try lia ].
+      | constructor; [exact I' | ..]; red_goal; proj_red;
+        try (match goal with Hc : x_inflight (sh ?st) = _ |- _ => rew_goal st end);
+        rw_consts;
+        cbn [sM sLate sI sR sE sS s0 aI aRd aLate aDn b2n]; try lia; bool_goal1; try lia ].
 
   Ltac sim_prep :=
     match goal with HR : R ?c ?s ?q, H : step ?c ?s ?a = Some ?s' |- _ =>
       let I' := fresh "I'" in
       pose proof (ProdS.inv_step c s a s' (r_inv c s q HR) H) as I';
       scbn H; unfold resolve in H; unacc;
+      unfold set_d, set_t, set_p, set_b, set_misc, set_app, set_s, set_infl, set_mark, set_br, upd_panic in H; scbn H;
       step_cases H; pair_cases; bool_hyps; pair_cases; bool_hyps;
       match goal with HR : R ?cx ?sx ?qx |- _ =>
         destr_R HR; pose_specs sx; pose proof (a_spec (ap sx)); pose proof (b2n_le1 (sync_close cx));
@@ -75,7 +84,14 @@ Module ProdSim.
                             | |- context [_ && b] => destruct b | |- context [negb b] => destruct b end end;
         repeat match goal with |- context [?a =? ?b] => destruct (a =? b) eqn:? end;
         repeat match goal with |- context [if sync_close ?c then _ else _] => destruct (sync_close c) eqn:? end;
-        cbn in *; q_cases; bool_hyps; subst; cbn in *;
+        cbn in *; q_cases; bool_hyps;
+        repeat (match goal with X : _ \/ _ |- _ => destruct X end; bool_hyps);
+        try discriminate; subst;
+        repeat match goal with
+        | H : ?l = true |- _ => progress (rewrite H in * )
+        | H : ?l = false |- _ => progress (rewrite H in * )
+        end;
+        cbn in *;
         first [ exfalso; cbn in *; lia
               | eexists; split; [reflexivity|]; finish_R I' ]
       end
